@@ -128,7 +128,7 @@ def run_scenarios(ctx: Ctx, scenarios: List[dict]) -> None:
 
 def run(ctx: Ctx) -> None:
     rng = random.Random(ctx.seed * 7919 + 15)
-    run_scenarios(ctx, [gen_c15(rng, 'c15-%d' % k, ctx.thorough) for k in range(ctx.pick(120, 1500))])
+    run_scenarios(ctx, [gen_c15(rng, 'c15-%d' % k, ctx.thorough) for k in range(ctx.pick(120, 3000))])
 
 
 def replay(ctx: Ctx, path: str) -> None:
